@@ -587,6 +587,143 @@ class _StarDisplays(ast.NodeTransformer):
         return c
 
 
+class _PrivateConsts:
+    """A private module-level name (`_TYPE = "type"`, `_KEYS: Final = ...`, also as an element of a tuple assignment of literals) bound
+    exactly once in the module to a literal of an immutable type (str, bytes, int, float, bool, None), never declared global and never
+    stored to in any function, is replaced by the literal wherever it is read in a scope that does not bind the name itself."""
+    def __init__(self):
+        self.inlined: Dict[str, int] = {}
+
+    def visit(self, tree: ast.Module) -> None:
+        cands: Dict[str, ast.Constant] = {}
+        count: Dict[str, int] = {}
+
+        def note(name: str, val: Optional[ast.AST]) -> None:
+            count[name] = count.get(name, 0) + 1
+            if isinstance(val, ast.Constant) and isinstance(val.value, (str, bytes, int, float, bool, type(None))) and name.startswith("_") and not name.startswith("__"):
+                cands[name] = val
+
+        for st in tree.body:
+            if isinstance(st, ast.Assign):
+                for t in st.targets:
+                    if isinstance(t, ast.Name):
+                        note(t.id, st.value)
+                    elif isinstance(t, (ast.Tuple, ast.List)):
+                        if isinstance(st.value, (ast.Tuple, ast.List)) and len(st.value.elts) == len(t.elts) and all(isinstance(e, ast.Name) for e in t.elts):
+                            for e, v in zip(t.elts, st.value.elts):
+                                note(e.id, v)
+                        else:
+                            for e in ast.walk(t):
+                                if isinstance(e, ast.Name):
+                                    note(e.id, None)
+            elif isinstance(st, ast.AnnAssign) and isinstance(st.target, ast.Name):
+                note(st.target.id, st.value)
+            elif isinstance(st, (ast.AugAssign,)) and isinstance(st.target, ast.Name):
+                note(st.target.id, None)
+                note(st.target.id, None)
+            elif not isinstance(st, (ast.FunctionDef, ast.AsyncFunctionDef, ast.ClassDef, ast.Import, ast.ImportFrom, ast.Expr)):
+                for e in ast.walk(st):
+                    if isinstance(e, ast.Name) and isinstance(e.ctx, (ast.Store, ast.Del)):
+                        note(e.id, None)
+                        note(e.id, None)
+        names = {n for n, v in cands.items() if count.get(n) == 1}
+        if not names:
+            return
+        # stored to / declared global / imported anywhere below module level: not a constant we can speak for
+        for fn in [x for x in ast.walk(tree) if isinstance(x, (ast.FunctionDef, ast.AsyncFunctionDef, ast.Lambda, ast.ClassDef))]:
+            for x in ast.walk(fn):
+                if isinstance(x, (ast.Global, ast.Nonlocal)):
+                    names -= set(x.names)
+        if not names:
+            return
+
+        def bound_in(scope: ast.AST) -> set:
+            out = set()
+            if isinstance(scope, (ast.FunctionDef, ast.AsyncFunctionDef, ast.Lambda)):
+                a = scope.args
+                out |= {p.arg for p in a.args + a.kwonlyargs + a.posonlyargs}
+                if a.vararg:
+                    out.add(a.vararg.arg)
+                if a.kwarg:
+                    out.add(a.kwarg.arg)
+            body = scope.body if isinstance(scope.body, list) else [scope.body]
+            stack = list(body)
+            while stack:
+                x = stack.pop()
+                if isinstance(x, ast.Name) and isinstance(x.ctx, (ast.Store, ast.Del)):
+                    out.add(x.id)
+                elif isinstance(x, (ast.FunctionDef, ast.AsyncFunctionDef, ast.ClassDef)):
+                    out.add(x.name)
+                    continue
+                elif isinstance(x, ast.Lambda):
+                    continue
+                elif isinstance(x, (ast.Import, ast.ImportFrom)):
+                    out |= {(a.asname or a.name.split(".")[0]) for a in x.names}
+                elif isinstance(x, ast.ExceptHandler) and x.name:
+                    out.add(x.name)
+                stack.extend(ast.iter_child_nodes(x))
+            return out
+
+        outer = self
+
+        class Sub(ast.NodeTransformer):
+            def __init__(self, shadow: set):
+                self.shadow = shadow
+
+            def _scope(self, node):
+                sh = self.shadow | (bound_in(node) & names)
+                sub = Sub(sh)
+                for fld, val in ast.iter_fields(node):
+                    if isinstance(val, list):
+                        setattr(node, fld, [sub.visit(v) if isinstance(v, ast.AST) else v for v in val])
+                    elif isinstance(val, ast.AST):
+                        setattr(node, fld, sub.visit(val))
+                return node
+
+            def visit_FunctionDef(self, node):
+                return self._scope(node)
+
+            visit_AsyncFunctionDef = visit_FunctionDef
+            visit_Lambda = visit_FunctionDef
+
+            def visit_ClassDef(self, node):
+                return self._scope(node)
+
+            def visit_Name(self, node):
+                if isinstance(node.ctx, ast.Load) and node.id in names and node.id not in self.shadow:
+                    outer.inlined[node.id] = outer.inlined.get(node.id, 0) + 1
+                    return ast.copy_location(ast.Constant(value=cands[node.id].value), node)
+                return node
+
+        tr = Sub(set())
+        tree.body = [tr.visit(st) if isinstance(st, (ast.FunctionDef, ast.AsyncFunctionDef, ast.ClassDef)) else st for st in tree.body]
+
+
+class _FoldStrings(ast.NodeTransformer):
+    """After constants were written in: `f"{'start-group'}-{n}"` is `f"start-group-{n}"`, `"a" + "b"` is `"ab"`."""
+    def visit_JoinedStr(self, node: ast.JoinedStr):
+        self.generic_visit(node)
+        vals: List[ast.expr] = []
+        for v in node.values:
+            if isinstance(v, ast.FormattedValue) and v.conversion == -1 and v.format_spec is None and isinstance(v.value, ast.Constant) and isinstance(v.value.value, str):
+                v = ast.copy_location(ast.Constant(value=v.value.value), v)
+            if isinstance(v, ast.Constant) and isinstance(v.value, str) and vals and isinstance(vals[-1], ast.Constant) and isinstance(vals[-1].value, str):
+                vals[-1] = ast.copy_location(ast.Constant(value=vals[-1].value + v.value), vals[-1])
+            else:
+                vals.append(v)
+        if all(isinstance(v, ast.Constant) for v in vals):
+            return ast.copy_location(ast.Constant(value="".join(v.value for v in vals)), node)
+        node.values = vals
+        return node
+
+    def visit_BinOp(self, node: ast.BinOp):
+        self.generic_visit(node)
+        if isinstance(node.op, ast.Add) and isinstance(node.left, ast.Constant) and isinstance(node.right, ast.Constant) \
+                and type(node.left.value) is type(node.right.value) and isinstance(node.left.value, (str, bytes)):
+            return ast.copy_location(ast.Constant(value=node.left.value + node.right.value), node)
+        return node
+
+
 class _RecordDicts:
     """`f(x, **rec._asdict())` -> `f(x, a=rec.a, b=rec.b)` when `rec` is a local bound exactly once, by a plain assignment, to the
     construction of a NamedTuple class of this module (fields a, b in that order), and none of the field names is already a keyword of
@@ -1765,6 +1902,10 @@ def normalise(tree: ast.Module, imported_gens: Optional[Dict[str, ast.FunctionDe
         _Fold().visit(tree)  # (`gen = self._items(...)` followed by `for x in gen:` becomes a loop over the call)
         gi.visit(tree)
     tree._tpsa_gen_inlined = gi.inlined  # type: ignore[attr-defined]
+    pc = _PrivateConsts()
+    pc.visit(tree)
+    if pc.inlined:
+        _FoldStrings().visit(tree)
     _SplitPairs().visit(tree)
     _DeferredDefaults().visit(tree)
     mt0 = _ModuleTables(tree)
